@@ -28,6 +28,8 @@ func ConfigByName(name string) Config {
 			c.OddServiceNames = true
 		case "negative_enum_values":
 			c.NegativeEnumValues = true
+		case "argmods":
+			c.ArgModifiers = true
 		case "shadow":
 			c.ShadowNames = true
 			c.MinFiles, c.MaxFiles = 2, 3
